@@ -65,6 +65,15 @@ M = {
                                 "    new = eqsig.AccSignal(acc_interp, dt_interp)\n    new._fa_spectrum, new._fa_freqs, new._cached_fa = asig._fa_spectrum, asig._fa_freqs, asig._cached_fa\n    return new\n", 0)],
  # alias fa_frequencies vs fa_freqs
  'r2_alias_in_rad_per_s': [(S, "    def fa_frequencies(self):\n        return self.fa_freqs\n", "    def fa_frequencies(self):\n        return 2 * np.pi * self.fa_freqs\n")],
+ # ---- wave 5: extreme but valid scales; explicit n that is not a 'fast' FFT length
+ # a zero test through squares: records below 1e-162 are taken for all-zero
+ 'r3_zero_test_through_squares': [(S, "        fa = np.fft.fft(self.values, n=n_factor)\n", "        fa = np.fft.fft(self.values, n=n_factor)\n        if np.sum(np.abs(self.values) ** 2) == 0:\n            fa = np.zeros(n_factor, dtype=complex)\n")],
+ # a ranking through a product: |F|^2 = F*conj(F) under/overflows at the extreme scales
+ 'r3_argmax_conj_product': [(I, "np.argmax(np.abs(asig.fa_spectrum))", "np.argmax((asig.fa_spectrum * np.conj(asig.fa_spectrum)).real)")],
+ # energy normalisation in the inverse helper overflows for huge records
+ 'r3_inverse_via_energy_normalisation': [(F, "    a /= dt\n    s = np.fft.ifft(a)\n    npts = n\n    s = s[:npts]\n    return s\n", "    a /= dt\n    e = np.sqrt(np.sum(np.abs(a) ** 2))\n    s = np.fft.ifft(a / e) * e if e > 0 else np.fft.ifft(a)\n    npts = n\n    s = s[:npts]\n    return s\n")],
+ # the array-level function substitutes a fast length for the requested n (n with a prime factor > 11)
+ 'r3_next_fast_len_calc': [(F, "            n_vals = n\n", "            import scipy.fft\n            n_vals = scipy.fft.next_fast_len(int(n))\n")],
  # ---- behaviour-preserving controls
  'ctl_scipy_fft': [(S, "np.fft.fft(", "scipy.fft.fft("), (S, "import numpy as np\n", "import numpy as np\nimport scipy.fft\n", 0),
                    (F, "np.fft.fft(", "scipy.fft.fft("), (F, "np.fft.ifft(", "scipy.fft.ifft("), (F, "import numpy as np\n", "import numpy as np\nimport scipy.fft\n", 0)],
